@@ -5,6 +5,7 @@ against a scripted PostgreSQL on loopback, driven by an event script (the same v
   client             a client connects and sends its StartupMessage (it is not logged in yet: the MD5 challenge is outstanding)
   counted            the oldest such client answers the challenge (admitted -> ReadyForQuery, refused -> ErrorResponse) and opens a transaction
   left               the oldest admitted client sends Terminate and closes
+  admin_shutdown     an admin client logs in to the admin database and sends SHUTDOWN (judged like SIGINT)
   idle_client        a client logs in and stays idle between transactions (it must be told at SIGINT)
   timeout            general.shutdown_timeout passes (2 s in a run whose script has this event, 120 s otherwise)
   accept_err         (cannot be provoked on loopback: skipped)
@@ -245,7 +246,7 @@ def run_script(script, profile='dev'):
             res['error'] = 'the pooler did not start listening (exit code %r)' % (proc.poll(),)
             return res
         time.sleep(0.3)
-        waiting, inside, idle = [], [], []
+        waiting, inside, idle, admins = [], [], [], []
         hups = 0
         res['reload_effective'] = []
         int_at = None
@@ -271,6 +272,26 @@ def run_script(script, profile='dev'):
                     except OSError:
                         okk = False
                     res['reload_effective'].append(okk)
+            elif e == 'admin_shutdown':
+                # the admin console's SHUTDOWN: an admin client logs in (admin database) and sends the command
+                try:
+                    ac = PgClient(port, user='admin', db='pgcat', password='admin')
+                    r = ac.login(begin=False)
+                    res['admin_login'] = r
+                    if r == 'admitted':
+                        ac.s.sendall(_msg(b'Q', b'SHUTDOWN\0'))
+                        if int_at is None:
+                            int_at = time.time()
+                        try:
+                            while True:
+                                code, body = ac.read_msg()
+                                if code in (b'Z', b'E'):
+                                    break
+                        except (EOFError, OSError, socket.timeout):
+                            pass
+                        admins.append(ac)
+                except OSError:
+                    res['admin_login'] = 'connect-failed'
             elif e == 'idle_client':
                 try:
                     c = PgClient(port)
@@ -331,7 +352,7 @@ def judge(res):
     if 'error' in res:
         return None
     sc = [e for e in res['script'] if e not in res['skipped']]
-    done = [s['event'] for s in res['steps']]
+    done = ['int' if s['event'] == 'admin_shutdown' else s['event'] for s in res['steps']]
     problems = []
     got_int, got_term = 'int' in done, 'term' in done
     timeout = 'timeout' in done
